@@ -61,6 +61,8 @@ def _replay_group(group):
       d.append(("accept", "spec %s impl %s" % (t["last"], got_last)))
     if exp != t["export"]:
       d.append(("export", "spec %s impl %s" % (t["export"], exp)))
+    if "needcal" in t and bool(rm2.need_calibration()) != bool(t["needcal"]):
+      d.append(("need-calibration", "spec %s impl %s" % (t["needcal"], rm2.need_calibration())))
     if {k: list(v) for k, v in res.items()} != {k: list(v) for k, v in pred_res.items()}:
       bad = [(k, pred_res[k], res[k]) for k in res if list(res[k]) != list(pred_res[k])]
       d.append(("resolve", "spec/impl differ at %s" % bad[:3]))
@@ -75,7 +77,7 @@ def main():
   A = recipe.alphabet()
   maxlen = 2 if args.tier == "quick" else 3
   consts, tabs = recipe.tla_constants(A, maxlen, FIXES_NOW)
-  invs = ["UniqueOpPerRegex", "UniqueRegex", "StarFirst", "NonEmptyLists", "ResolvedIsSupported"]
+  invs = ["UniqueOpPerRegex", "UniqueRegex", "StarFirst", "NonEmptyLists", "ResolvedIsSupported", "NeedCalSound"]
   props = ["RegexOrderStable", "RefusalIsNoop", "LoadResets"]
   if prop == "C12":
     invs = ["RoundTrip", "RoundTripResolves"]
